@@ -430,7 +430,7 @@ def emit_recs(cases, out, fb, cov):
                 # the rejection explains itself in error.data; its wording is free
                 payload_eq = isinstance(got_pl, dict) and got_pl.get("batching_supported") is False
             recs.append({"emitter": c["emitter"], "want": want, "backend": "fallback" if fb else "pydantic", "form": form, "env": f["env"], "penv": f["parsed"]["env"],
-                         "idEq": bool(id_eq), "sameTree": f["parsed"]["tree"] == f["tree"], "payloadEq": bool(payload_eq), "built": True, "pcls": f["parsed"]["cls"], "src": c})
+                         "idEq": bool(id_eq), "sameTree": f["parsed"]["tree"] == f["tree"] and f["parsed"].get("unifiedSame", True), "payloadEq": bool(payload_eq), "built": True, "pcls": f["parsed"]["cls"], "src": c})
     return recs
 
 
